@@ -51,7 +51,7 @@ def gen_script(r, tier, idx):
         # presses reconnect / re-enters the spa details on a healthy network
         d = r.choice([26, 40, 90])
         phases = [Phase("blackout", d)]
-        actions = [(d + r.choice([0.5, 5, 30]), r.choice(["reset", "set-info"]))]
+        actions = [(d + r.choice([5, 20, 60]), r.choice(["reset", "set-info"]))]
     elif kind == "blackout-at-start":
         phases = [Phase("blackout", r.choice([0.3, 2, 8, 25]))]
     elif kind == "mixed":
@@ -181,7 +181,8 @@ def scenario(sh: Shard, seed, idx, tier):
         # ---- recovery
         elif out["t_connected"] is None:
             fs = out["final_state"]
-            user_reset_when_healthy = any(x["api"] == "async_reset" and str(x.get("task", "")).startswith("Task-") and mw.healthy_since <= x["t0"] < out.get("t_final", 0) - 1.0 and x.get("t1") is not None for x in api)
+            t_nf = max((e["t"] for e in ev if e["event"] == "SPA_NOT_FOUND"), default=0.0)
+            user_reset_when_healthy = any(x["t0"] >= t_nf and x["api"] == "async_reset" and str(x.get("task", "")).startswith("Task-") and mw.healthy_since <= x["t0"] < out.get("t_final", 0) - 1.0 and x.get("t1") is not None for x in api)
             if fs == "ERROR_SPA_NOT_FOUND" and not user_reset_when_healthy:
                 key = "C09:terminal:ERROR_SPA_NOT_FOUND"
             elif interleaved:
